@@ -18,7 +18,6 @@
 import Hx.Spec.Grammar
 import Hx.Parse.Lines
 import Hx.Lemmas.StartGrammar
-import Hx.Lemmas.BlockGrammar
 namespace Hx
 
 theorem c06_line_iff (be : Backend) (hbe : be.Exact) (multi : Bool) (buf : List Byte)
@@ -42,40 +41,6 @@ theorem c06_line_unique (multi : Bool) {pre mb sp₁ t sp₂ eol rest pre' mb' s
     (e : requestLineBytes pre mb sp₁ t sp₂ v eol ++ rest = requestLineBytes pre' mb' sp₁' t' sp₂' v' eol' ++ rest') :
     pre = pre' ∧ mb = mb' ∧ sp₁ = sp₁' ∧ t = t' ∧ sp₂ = sp₂' ∧ v = v' ∧ eol = eol' ∧ rest = rest' :=
   requestLine_unique multi h h' e
-
-theorem c06_accept_iff (be : Backend) (hbe : be.Exact) (cfg : Config) (cap : Nat) (buf : List Byte)
-    (v₀ : ReqVal) (n : Nat) :
-    (reqCore be cfg cap buf v₀).status = .ok n ↔
-      ∃ pre mb sp₁ t sp₂ v eol hb k hs, IsRequestLine cfg.multiReq pre mb sp₁ t sp₂ v eol ∧
-        buf = requestLineBytes pre mb sp₁ t sp₂ v eol ++ hb ∧
-        BlockSpec cfg.reqH cap (requestLineBytes pre mb sp₁ t sp₂ v eol).length 0 hb k hs ∧
-        n = (requestLineBytes pre mb sp₁ t sp₂ v eol).length + k ∧
-        (reqCore be cfg cap buf v₀).hdrs = hs ∧
-        (reqCore be cfg cap buf v₀).val =
-          ⟨some ⟨pre.length, mb⟩, some ⟨pre.length + mb.length + sp₁.length, t⟩, some v⟩ := by
-  constructor
-  · intro h
-    cases hl : (reqLineP be cfg.multiReq).run (Cur.new buf) with
-    | ok r =>
-      obtain ⟨⟨m, p, v⟩, c⟩ := r
-      have hc := (c06_core be cfg cap buf v₀).1 m p v c hl
-      obtain ⟨pre, mb, sp₁, t, sp₂, eol, rest, hline, hbuf, hm, hp, hcur⟩ := (c06_line_iff be hbe cfg.multiReq buf m p v c).1 hl
-      rw [hc] at h
-      obtain ⟨k, hs, hb, hn, hh⟩ := (finishHeaders_ok_iff be hbe cfg.reqH cap buf c _ n
-        (by subst hcur; subst hbuf; exact ⟨_, rfl, by simp⟩)).1 h
-      subst hcur
-      refine ⟨pre, mb, sp₁, t, sp₂, v, eol, rest, k, hs, hline, hbuf, hb, hn, ?_, ?_⟩
-      · rw [hc]; exact hh.1
-      · rw [hc, hh.2, hm, hp]
-    | part => have := (c06_core be cfg cap buf v₀).2.2 hl; rw [this] at h; cases h
-    | err e => have := (c06_core be cfg cap buf v₀).2.1 e hl; rw [this] at h; cases h
-    | ub u => exact absurd hl (reqLine_no_ub be hbe cfg.multiReq buf u)
-  · rintro ⟨pre, mb, sp₁, t, sp₂, v, eol, hb, k, hs, hline, hbuf, hblk, hn, _, _⟩
-    have hl := (c06_line_iff be hbe cfg.multiReq buf ⟨pre.length, mb⟩ ⟨pre.length + mb.length + sp₁.length, t⟩ v
-      ⟨(requestLineBytes pre mb sp₁ t sp₂ v eol).length, [], hb⟩).2 ⟨pre, mb, sp₁, t, sp₂, eol, hb, hline, hbuf, rfl, rfl, rfl⟩
-    rw [(c06_core be cfg cap buf v₀).1 _ _ _ _ hl]
-    exact (finishHeaders_ok_iff be hbe cfg.reqH cap buf _ _ n (by subst hbuf; exact ⟨_, rfl, by simp⟩)).2
-      ⟨k, _, hblk, hn, rfl, rfl⟩ |> fun h => h
 
 /-- non-vacuity: a concrete request line in the grammar -/
 example : IsRequestLine false [] [0x47, 0x45, 0x54] [SP] [0x2F] [SP] 1 [CR, LF] :=
